@@ -380,7 +380,9 @@ pub fn run(ctx: &mut Ctx) {
             })
             .collect();
         let k = rng.range(1, 6);
-        let mut idx: Vec<usize> = (0..POOL.len()).collect();
+        // (`let-intro` rewrites every product into a term that contains two more: it only makes the runs long, see the `rw` suite for it)
+        let li = POOL.iter().position(|r| r.0 == "let-intro").unwrap_or(usize::MAX);
+        let mut idx: Vec<usize> = (0..POOL.len()).filter(|i| *i != li).collect();
         rng.shuffle(&mut idx);
         idx.truncate(k);
         let iter_limit = [0usize, 1, 2, 5, 30][rng.below(5)];
